@@ -522,6 +522,14 @@ def specGo (ff : FF) : Nat → Nat → Nat → List (ResNode κ) → Mol
       let tail := specGo ff (off + b.atoms.length) (cg + lastCg b) (if r.fromItp.isSome then b.nres - 1 else 0) rest
       ⟨place off r.resid (blockBase b) cg b.atoms ++ tail.atoms, b.ixns.map (shiftIxn off) ++ tail.ixns⟩
 
+/-- specification of the `graph` attributes: the atoms of a residue node are the atoms of its block copy -/
+def specGraphs (ff : FF) : Nat → List (ResNode κ) → List (κ × List Nat)
+  | _, [] => []
+  | off, r :: rest =>
+    match ff.block? r.resname with
+    | none => []
+    | some b => (r.key, List.range' off b.atoms.length) :: specGraphs ff (off + b.atoms.length) rest
+
 end spec
 
 /-- the molecule C01 demands before links and modifications (RHS of `C01_layout` / `C01_interactions`) -/
